@@ -22,8 +22,12 @@
     sufficient) stopping at the limit; the limited search reports the first min(N, M) rows of the
     unlimited breadth-first search.  After the limit the queue is still drained, but nothing is
     examined or written (`drain_reached`).
-  Several roots and the footer are decided by the correspondence and by the oracle "sub-multiset of the
-  unlimited run with min(N, M) rows".
+  * `roots_streamed_any_plan`, `roots_streamed_limit` — several disjoint plain roots (each bfs or dfs, own
+    depth window): searched one after the other until the limit is reached, after which no root is examined
+    (`roots_reached`); the limited search of all the roots reports the first min(N, M) rows of the
+    unlimited search.
+  Roots with options (symlinks, ignore files), overlapping roots and the footer are decided by the
+  correspondence and by the oracle "sub-multiset of the unlimited run with min(N, M) rows".
 -/
 import Fsel.Props.C05
 import Fsel.Props.C01
@@ -145,7 +149,8 @@ theorem bfs_streamed_any_plan (p : Plan) (rp : RootParams) (path canon : Str) (k
     (hg : goodL kids) (hnd : (inodesL kids).Nodup) (hfresh : ∀ i ∈ inodesL kids, i ∉ st.walk.visited) :
     match foldLim p st.res (checksL p rp (levelOrder rp [rootItem path canon kids])) with
     | .error a => bfsRoot p rp path canon kids st = .error a
-    | .ok rs' => ∃ w', bfsRoot p rp path canon kids st = .ok { res := rs', walk := w' } := by
+    | .ok rs' => ∃ w', bfsRoot p rp path canon kids st = .ok { res := rs', walk := w' } ∧
+        (limitReached p rs' = false → ∀ i, i ∈ w'.visited → i ∈ st.walk.visited ∨ i ∈ inodesL kids) := by
   rw [bfsRoot_eq_drain p rp path canon kids st hq]
   have hsz : qSize [rootItem path canon kids] ≤ Node.countDirsList kids + 1 + 1 := by
     rw [qSize_cons, qSize_nil]; simp only [rootItem]; omega
@@ -156,7 +161,7 @@ theorem bfs_streamed_any_plan (p : Plan) (rp : RootParams) (path canon : Str) (k
     (by intro it hit; simp only [List.mem_singleton] at hit; subst hit; exact hg)
     (by simpa [hqi] using hnd)
     (by simpa [hqi] using hfresh)
-  simp only [he] at h
+  simp only [he, hqi] at h
   exact h
 
 open WalkB WalkLimB C01 in
@@ -175,6 +180,190 @@ theorem bfs_streamed_limit (p : Plan) (rp : RootParams) (hb : p.q.isBuffered = f
   have hlm := bfs_streamed_any_plan p rp path canon kids st hq hg hnd hfresh
   rw [checksL_unlimited] at hu
   cases hf : foldLim (unlimited p) st.res (checksL p rp (levelOrder rp [rootItem path canon kids])) with
+  | error a => rw [hf] at hu; rw [hu] at hU; contradiction
+  | ok rsU =>
+    rw [hf] at hu
+    obtain ⟨wU, hwU, _⟩ := hu
+    rw [hwU] at hU
+    injection hU with hU
+    subst hU
+    obtain ⟨rsL, cs, h1, h2, h3, h4⟩ := lim_is_prefix p hb hn _ st.res rsU h0 hf
+    rw [h1] at hlm
+    obtain ⟨wL, hwL, _⟩ := hlm
+    exact ⟨{ res := rsL, walk := wL }, cs, hwL, h2, h3, h4⟩
+
+/-! ### several roots under a streamed LIMIT -/
+
+open WalkB WalkLimB C01 in
+/-- one plain root under any plan, either traversal: the result is `check_file` over the root's events,
+    stopping at the limit; while the limit is not reached the traversal state only gains inode numbers of
+    that root -/
+theorem one_root_lim (p : Plan) (r : RootRec) (st : WSt)
+    (hnd : r.inos.Nodup) (hfresh : ∀ i ∈ r.inos, i ∉ st.walk.visited) (hg : goodL r.kids) (hc : 1 < r.canon.length) :
+    match foldLim p st.res (checksL p r.rp r.events) with
+    | .error a => searchRoot p r.root (.dir r.e true r.kids r.canon) st = .error a
+    | .ok rs' => ∃ w', searchRoot p r.root (.dir r.e true r.kids r.canon) st = .ok { res := rs', walk := w' } ∧
+        (limitReached p rs' = false → ∀ i, i ∈ w'.visited → i ∈ st.walk.visited ∨ i ∈ r.inos) := by
+  have hroot : r.e.ino ∉ st.walk.visited := hfresh _ (by simp [RootRec.inos])
+  have hnd' := List.nodup_cons.mp hnd
+  have hmv := markVisited_fresh { st.walk with queue := [] } r.e.ino hroot
+  have hfr2 : ∀ i ∈ inodesL r.kids, i ∉ (st.walk.visited ++ [r.e.ino]) := by
+    intro i hi hv
+    simp only [List.mem_append, List.mem_singleton] at hv
+    rcases hv with h | h
+    · exact hfresh i (by simp [RootRec.inos, hi]) h
+    · subst h; exact hnd'.1 hi
+  by_cases hb : r.rp.bfs = true
+  · rw [searchRoot_bfs p r.root r.e r.kids r.canon st hb]
+    simp only [RootRec.events, hb, if_true]
+    rw [hmv]
+    have h := bfs_streamed_any_plan p r.rp r.root.path r.canon r.kids
+      { st with walk := { st.walk with queue := [], visited := st.walk.visited ++ [r.e.ino] } } rfl hg hnd'.2 hfr2
+    simp only at h
+    cases hf : foldLim p st.res (checksL p r.rp (levelOrder r.rp [rootItem r.root.path r.canon r.kids])) with
+    | error a => rw [hf] at h; exact h
+    | ok rs' =>
+      rw [hf] at h
+      obtain ⟨w', h1, h4⟩ := h
+      refine ⟨w', h1, fun hnr i hi => ?_⟩
+      rcases h4 hnr i hi with h | h
+      · simp only [List.mem_append, List.mem_singleton] at h
+        rcases h with h | h
+        · exact Or.inl h
+        · right; subst h; simp [RootRec.inos]
+      · right; simp [RootRec.inos, h]
+  · have hbf : r.rp.bfs = false := by cases h : r.rp.bfs <;> simp_all
+    simp only [RootRec.events, hbf, Bool.false_eq_true, if_false]
+    have hsr : searchRoot p r.root (.dir r.e true r.kids r.canon) st =
+        visitDirD p r.rp r.root.path r.canon true r.kids
+          { st with walk := { st.walk with queue := [], visited := st.walk.visited ++ [r.e.ino] } } := by
+      simp only [searchRoot, RootRec.rp] at hbf ⊢
+      simp only [hbf, Bool.false_eq_true, if_false, hmv]
+    rw [hsr]
+    have hd : calcDepth r.canon - r.rp.base + 1 = 1 := by simp [RootRec.rp, rootParams]
+    have h := dfs_list_lim p r.rp r.root.path r.canon 1 hc (by simp [RootRec.rp, rootParams]) hd r.kids
+      { st with walk := { st.walk with queue := [], visited := st.walk.visited ++ [r.e.ino] } } hg hnd'.2 hfr2
+    rw [visitDirD]
+    simp only [Bool.not_true, Bool.false_eq_true, if_false, hd]
+    cases hf : foldLim p st.res (checksL p r.rp (eventsL r.rp r.root.path r.canon 1 r.kids)) with
+    | error a => rw [hf] at h; exact h
+    | ok rs' =>
+      rw [hf] at h
+      obtain ⟨w', hsub, h1⟩ := h
+      refine ⟨w', h1, fun _ i hi => ?_⟩
+      rcases hsub i hi with h | h
+      · simp only [List.mem_append, List.mem_singleton] at h
+        rcases h with h | h
+        · exact Or.inl h
+        · right; subst h; simp [RootRec.inos]
+      · right; simp [RootRec.inos, h]
+
+open WalkB WalkLimB C01 in
+/-- once the limit is reached a further root changes nothing in the result (whatever its inode numbers) -/
+theorem one_root_reached (p : Plan) (r : RootRec) (st : WSt) (h : limitReached p st.res = true) :
+    ∃ w', searchRoot p r.root (.dir r.e true r.kids r.canon) st = .ok { res := st.res, walk := w' } := by
+  simp only [searchRoot]
+  by_cases hb : (rootParams r.root r.canon).bfs = true
+  · simp only [hb, if_true, visitDirB, Bool.not_true, Bool.false_eq_true, if_false]
+    rw [visitKidsB_reached p _ _ _ _ _ (by simpa using h)]
+    exact drain_reached p _ _ _ (by simpa using h)
+  · simp only [hb, Bool.false_eq_true, if_false]
+    rw [visitDirD]
+    simp only [Bool.not_true, Bool.false_eq_true, if_false]
+    rw [visitKidsD_reached p _ _ _ _ _ (by simpa using h)]
+    exact ⟨_, rfl⟩
+
+/-- the roots one after the other under any plan: each reports its own events until the limit is reached -/
+def foldRootsLim (p : Plan) : ResSt → List C01.RootRec → Except Abort ResSt
+  | rs, [] => .ok rs
+  | rs, r :: t =>
+    match foldLim p rs (checksL p r.rp r.events) with
+    | .error a => .error a
+    | .ok rs' => foldRootsLim p rs' t
+
+open C01 in
+theorem roots_reached (p : Plan) (fs : FSnap) (multi : Bool) :
+    ∀ (recs : List RootRec) (st : WSt), (∀ r ∈ recs, PlainRoot p fs r) → limitReached p st.res = true →
+      ∃ w', searchRoots p fs multi (recs.map (·.root)) st = .ok { res := st.res, walk := w' }
+  | [], st, _, _ => ⟨st.walk, by simp [searchRoots]⟩
+  | r :: t, st, hp, h => by
+    obtain ⟨h1, h2, h3, h4, h5, h6, _, _⟩ := hp r (by simp)
+    obtain ⟨w1, hw1⟩ := one_root_reached p r st h
+    simp only [List.map_cons, searchRoots, h1, h2, h3, h4, h5, h6, Bool.false_eq_true, if_false, Bool.or_self, hw1]
+    exact roots_reached p fs multi t { res := st.res, walk := w1 } (fun x hx => hp x (by simp [hx])) h
+
+open C01 in
+/-- **several disjoint roots under any plan** (limited or not): the roots are searched one after the other,
+    each checking its own entries, until the streamed limit is reached; after that no root is examined any
+    more -/
+theorem roots_streamed_any_plan (p : Plan) (fs : FSnap) (multi : Bool) :
+    ∀ (recs : List RootRec) (st : WSt), (∀ r ∈ recs, PlainRoot p fs r) →
+      (recs.flatMap RootRec.inos).Nodup → (∀ i ∈ recs.flatMap RootRec.inos, i ∉ st.walk.visited) →
+      match foldRootsLim p st.res recs with
+      | .error a => searchRoots p fs multi (recs.map (·.root)) st = .error a
+      | .ok rs' => ∃ w', searchRoots p fs multi (recs.map (·.root)) st = .ok { res := rs', walk := w' }
+  | [], st, _, _, _ => by
+    simp only [foldRootsLim, List.map_nil, searchRoots]
+    exact ⟨st.walk, rfl⟩
+  | r :: t, st, hp, hnd, hfr => by
+    obtain ⟨h1, h2, h3, h4, h5, h6, h7, h8⟩ := hp r (by simp)
+    simp only [List.flatMap_cons] at hnd hfr
+    obtain ⟨hndr, hndt, hdisj⟩ := List.nodup_append.mp hnd
+    have hone := one_root_lim p r st hndr (fun i hi => hfr i (List.mem_append.mpr (Or.inl hi))) h7 h8
+    simp only [foldRootsLim, List.map_cons, searchRoots, h1, h2, h3, h4, h5, h6, Bool.false_eq_true, if_false, Bool.or_self]
+    cases hf : foldLim p st.res (checksL p r.rp r.events) with
+    | error a => rw [hf] at hone; simp only at hone ⊢; rw [hone]
+    | ok rs1 =>
+      rw [hf] at hone
+      obtain ⟨w1, hs1, hv1⟩ := hone
+      simp only [hs1]
+      by_cases hr : limitReached p rs1 = true
+      · -- the limit was reached inside this root: the remaining roots change nothing
+        have hrest : foldRootsLim p rs1 t = .ok rs1 := by
+          clear hs1 hv1 hf hp hnd hfr hndt hdisj
+          induction t with
+          | nil => rfl
+          | cons x xs ih => simp only [foldRootsLim, foldLim_reached p rs1 hr]; exact ih
+        rw [hrest]
+        exact roots_reached p fs multi t { res := rs1, walk := w1 } (fun x hx => hp x (by simp [hx])) hr
+      · have hr' : limitReached p rs1 = false := by simpa using hr
+        exact roots_streamed_any_plan p fs multi t { res := rs1, walk := w1 } (fun x hx => hp x (by simp [hx])) hndt
+          (by intro i hi hv
+              rcases hv1 hr' i hv with h | h
+              · exact hfr i (List.mem_append.mpr (Or.inr hi)) h
+              · exact hdisj i h i hi rfl)
+
+/-- the checks of several roots form one list: the fold over the roots is the fold over their concatenation -/
+theorem foldRootsLim_flat (p : Plan) (recs : List C01.RootRec) (rs : ResSt) :
+    foldRootsLim p rs recs = foldLim p rs (recs.flatMap fun r => checksL p r.rp r.events) := by
+  induction recs generalizing rs with
+  | nil => rfl
+  | cons r t ih =>
+    simp only [foldRootsLim, List.flatMap_cons, foldLim_append]
+    cases foldLim p rs (checksL p r.rp r.events) with
+    | error a => rfl
+    | ok rs' => exact ih rs'
+
+open C01 in
+/-- **LIMIT N without ORDER BY over several roots**: whenever the unlimited search of all the roots succeeds
+    with M rows, the limited search succeeds with exactly min(N, M) rows — the first chunks the unlimited
+    search wrote, in the same order (roots in the order given, each in its own traversal mode) -/
+theorem roots_streamed_limit (p : Plan) (fs : FSnap) (multi : Bool) (hb : p.q.isBuffered = false) (hn : 0 < p.q.limit)
+    (recs : List RootRec) (st sU : WSt) (hp : ∀ r ∈ recs, PlainRoot p fs r)
+    (hnd : (recs.flatMap RootRec.inos).Nodup) (hfr : ∀ i ∈ recs.flatMap RootRec.inos, i ∉ st.walk.visited)
+    (h0 : st.res.found ≤ p.q.limit)
+    (hU : searchRoots (unlimited p) fs multi (recs.map (·.root)) st = .ok sU) :
+    ∃ sL cs, searchRoots p fs multi (recs.map (·.root)) st = .ok sL ∧
+      sU.res.outRev = cs ++ sL.res.outRev ∧
+      sU.res.found = sL.res.found + cs.length ∧
+      sL.res.found = min p.q.limit sU.res.found := by
+  have hpU : ∀ r ∈ recs, PlainRoot (unlimited p) fs r := hp
+  have hu := roots_streamed_any_plan (unlimited p) fs multi recs st hpU hnd hfr
+  have hlm := roots_streamed_any_plan p fs multi recs st hp hnd hfr
+  rw [foldRootsLim_flat] at hu hlm
+  have hsame : (recs.flatMap fun r => checksL (unlimited p) r.rp r.events) = (recs.flatMap fun r => checksL p r.rp r.events) := rfl
+  rw [hsame] at hu
+  cases hf : foldLim (unlimited p) st.res (recs.flatMap fun r => checksL p r.rp r.events) with
   | error a => rw [hf] at hu; rw [hu] at hU; contradiction
   | ok rsU =>
     rw [hf] at hu
